@@ -178,6 +178,11 @@ func allowedFor(t *fixture.Tree, s Site, p string, trailingSlash bool, ae string
 	return out
 }
 
+type seqObs struct {
+	status            int
+	loc, ce, ct, body string
+}
+
 func runCase(c *Case) (nontrivial int, err error) {
 	t := getTree()
 	origin := filepath.Join(t.Root, filepath.FromSlash(c.Site.origin()))
@@ -193,6 +198,7 @@ func runCase(c *Case) (nontrivial int, err error) {
 		return 0, fmt.Errorf("HARNESS: dial: %v", e)
 	}
 	defer func() { conn.Close() }()
+	seq := make([]*seqObs, len(c.Reqs))
 	for i, r := range c.Reqs {
 		if r.Replace {
 			if b, rerr := os.ReadFile(origin); rerr == nil {
@@ -223,6 +229,7 @@ func runCase(c *Case) (nontrivial int, err error) {
 				return nontrivial, fmt.Errorf("HARNESS: redial: %v", e)
 			}
 		}
+		seq[i] = &seqObs{resp.Status, resp.Header.Get("Location"), resp.Header.Get("Content-Encoding"), resp.Header.Get("Content-Type"), string(resp.Body)}
 		desc := fmt.Sprintf("request %d %s %q AE=%q Accept=%q on site %+v", i, r.Method, r.Target, r.AE, r.Accept, c.Site)
 		u, perr := url.ParseRequestURI(r.Target)
 		var cleaned string
@@ -357,6 +364,66 @@ func runCase(c *Case) (nontrivial int, err error) {
 			}
 			return nontrivial, fmt.Errorf("%s: 200 with Content-Encoding %q and %d body bytes %q is not the file the cleaned path %q names, its index page, or an accepted sibling (allowed: %v)", desc, ce, len(body), clip(decoded), cleaned, names)
 		}
+	}
+	// the same requests once more from several connections at once: what a path
+	// yields must not depend on what else is being served at that moment
+	var wg sync.WaitGroup
+	cerr := make(chan error, 8)
+	for g := 0; g < 6; g++ {
+		wg.Add(1)
+		go func(g int) {
+			defer wg.Done()
+			cc, err := srv.Dial(addr)
+			if err != nil {
+				return
+			}
+			defer func() { cc.Close() }()
+			for k := range c.Reqs {
+				i := (k*5 + g*3) % len(c.Reqs)
+				r := c.Reqs[i]
+				if r.Replace || seq[i] == nil {
+					continue
+				}
+				if strings.Contains(r.Target, "archive=") || strings.HasPrefix(seq[i].ct, "application/json") || strings.Contains(seq[i].body, "<title>") {
+					continue // archives and listings carry modification times (the origin file may have been replaced meanwhile)
+				}
+				hdr := [][2]string{}
+				if r.AE != "-" {
+					hdr = append(hdr, [2]string{"Accept-Encoding", r.AE})
+				}
+				if r.Accept != "" {
+					hdr = append(hdr, [2]string{"Accept", r.Accept})
+				}
+				resp, err := cc.Do(r.Method, srv.Request(r.Method, c.Site.PathPrefix+r.Target, "localhost", hdr, nil))
+				if err != nil {
+					cc.Close()
+					if cc, err = srv.Dial(addr); err != nil {
+						return
+					}
+					continue
+				}
+				got := seqObs{resp.Status, resp.Header.Get("Location"), resp.Header.Get("Content-Encoding"), resp.Header.Get("Content-Type"), string(resp.Body)}
+				if got != *seq[i] {
+					select {
+					case cerr <- fmt.Errorf("request %d %s %q AE=%q answered differently while 5 other connections were being served: status %d, Content-Encoding %q, %d body bytes; on its own: status %d, Content-Encoding %q, %d body bytes (site %+v)", i, r.Method, r.Target, r.AE, got.status, got.ce, len(got.body), seq[i].status, seq[i].ce, len(seq[i].body), c.Site):
+					default:
+					}
+					return
+				}
+				if resp.Close {
+					cc.Close()
+					if cc, err = srv.Dial(addr); err != nil {
+						return
+					}
+				}
+			}
+		}(g)
+	}
+	wg.Wait()
+	select {
+	case err := <-cerr:
+		return nontrivial, err
+	default:
 	}
 	return nontrivial, nil
 }
